@@ -162,6 +162,7 @@ func runC08(c *Ctx) {
 		"additionally (kind framefail, oracle only) both frame readers on a transport that fails with a non-EOF error after every number of bytes of a valid frame, delivering 1, 3 or all requested bytes per read; " +
 		"non-trivial = input that is not itself a valid encoding")
 	c08ClientData(c)
+	c08ClientNames(c)
 	child, err := startChild("c08", 6000000)
 	if err != nil {
 		c.Diag("cannot start child: %v", err)
